@@ -165,6 +165,53 @@ class MemServer:
         pass
 
 
+SPELLED = [["unix:/tmp/mc.1.sock", "unix:/tmp/mc.2.sock", "/tmp/mc.3.sock"], ["cache-a", "cache-b:11212", ("10.0.0.1", 11211)],
+           ["[::1]:11311", "[::2]", ("10.0.0.2", 11211), "10.0.0.3"], [("10.0.0.4", 11211)]]
+
+
+def spelling_probe(ctx):
+    """HashClient over REAL Client objects (scripted sockets, one reference server per address), the servers given in every accepted
+    spelling: multi-key operations must work and agree with the per-key ones (the per-server batches are looked up by the inner
+    client's own, normalised, server)"""
+    from pymemcache.client.hash import HashClient
+    from harness import clientsim as cs
+    from harness.refserver import Server
+    found, n = [], 0
+    keys = ["key-%d" % i for i in range(16)] + [b"bkey-%d" % i for i in range(6)] + [("sk-%d" % i, "inner-%d" % i) for i in range(3)]
+    bare = lambda k: k[1] if isinstance(k, tuple) else k
+    for servers in SPELLED:
+        for pooling in (False, True):
+            for prefix in (b"", b"p:"):
+                n += 1
+                world = cs.World([], [], (), 1)
+                nodes = {}
+                world.addr_peer = lambda remote, data: nodes.setdefault(remote, Server()).feed(data)
+                why = None
+                try:
+                    hc = HashClient(servers, use_pooling=pooling, key_prefix=prefix, socket_module=cs.FakeSocketModule(world), default_noreply=False,
+                                    connect_timeout=cs.CONNECT_TIMEOUT, timeout=cs.IO_TIMEOUT)
+                    failed = hc.set_many({k: ("v-%r" % (bare(k),)).encode() for k in keys})
+                    single = {bare(k): hc.get(k) for k in keys}
+                    many = hc.get_many(keys)
+                    gmany = hc.gets_many(iter(keys))
+                    if failed:
+                        why = "set_many reported failed keys %r with every server up" % (failed,)
+                    elif any(v is None for v in single.values()):
+                        why = "written by set_many, not found by get: %r" % ([k for k, v in single.items() if v is None][:4],)
+                    elif many != single:
+                        why = "get_many differs from the per-key gets: %r vs %r" % (sorted(map(repr, many.items()))[:3], sorted(map(repr, single.items()))[:3])
+                    elif {k: v[0] for k, v in gmany.items()} != single:
+                        why = "gets_many differs from the per-key gets"
+                    elif hc.delete_many(keys) is not True or any(hc.get(k) is not None for k in keys):
+                        why = "delete_many did not remove what set_many wrote"
+                except BaseException as e:  # noqa
+                    why = "raised %s: %s" % (type(e).__name__, str(e)[:100])
+                if why:
+                    found.append({"clause": why, "input": {"servers": repr(servers), "use_pooling": pooling, "prefix": repr(prefix), "keys": repr(keys)[:200]},
+                                  "size": 0, "spelling_case": repr((servers, pooling, prefix))})
+    return found, n
+
+
 def search(ctx):
     import pymemcache.client.hash as H
     rng = ctx.rng
@@ -286,7 +333,9 @@ def search(ctx):
                     break
     finally:
         H.time = saved
-    ctx.search_summary = {"same_state_probes": n_probe}
+    f2, n_sp = spelling_probe(ctx)
+    found += f2
+    ctx.search_summary = {"same_state_probes": n_probe, "server_spelling_probes": n_sp}
     found.sort(key=lambda v: v["size"])
     return found[:1]
 
